@@ -152,7 +152,7 @@ def run_rc(pid, tier, seed, replay=None):
     P = PROPS[pid]
     t0 = time.time()
     config = P.get("config", "asan")
-    exe = ybuild.link_prop(P["src"], config=config, extra_link=P.get("extra_link", ()))
+    exe = ybuild.link_prop(P["src"], config=config, variant=P.get("variant", "rc"), extra_link=P.get("extra_link", ()))
     env = san_env(P.get("leaks", False))
     for k, v in P.get("env", {}).items():
         env[k] = v
@@ -378,7 +378,10 @@ def setup():
     jobs = []
     for pid, P in sorted(PROPS.items()):
         if P.get("engine", "rc") in ("rc", "fuzz", "rcfuzz") and P.get("src"):
-            variants = P.get("variants", ["rc"])
+            if P.get("extra_link"):
+                jobs.append((P["src"], P.get("config", "asan"), P.get("variant", "rc"), tuple(P["extra_link"])))
+                continue
+            variants = P.get("variants", [P.get("variant", "rc")])
             for v in variants:
                 jobs.append((P["src"], P.get("config", "asan"), v, tuple(P.get("extra_link", ()))))
     jobs = sorted(set(jobs))
